@@ -7,7 +7,7 @@ TARGETS = [F + "_write", F + "_close", "paramiko.sftp_client.SFTPClient._transfe
            (F + "_check_exception", "saved-exception", {}),
            "paramiko.sftp_client.SFTPClient._read_response"]
 REPLAY = {"*": "c29.replay_transfers", "registered_under_their_file": "c29.pipelined_reject_with_request_between",
-          "saved": "c29.pipelined_reject_with_request_between"}
+          "saved": "c29.pipelined_reject_with_request_between", "refusal": "c29.pipelined_reject_with_request_between"}
 
 
 def setup(E):
